@@ -282,6 +282,140 @@ def guard_tie(ctx: Ctx, n):
             ctx.disagree("utilities.noninteger_charge", {"charge": c, "tol": t}, a == "1", real)
 
 
+class _Counts:
+    def __init__(self, heavy, missing):
+        self.num_heavy, self.num_missing_heavy = heavy, missing
+
+
+def real_gate(heavy, missing, lig):
+    """main.is_repairable on a stand-in that carries the two counts it reads -> outcome label"""
+    import logging
+
+    from pdb2pqr import main as pmain
+
+    seen = []
+
+    class H(logging.Handler):
+        def emit(self, record):
+            seen.append(record.levelname.lower())
+
+    h = H(level=logging.DEBUG)
+    lg = pmain._LOGGER
+    old_level, old_disable = lg.level, logging.root.manager.disable
+    logging.disable(logging.NOTSET)
+    lg.setLevel(logging.DEBUG)
+    lg.addHandler(h)
+    try:
+        r = pmain.is_repairable(_Counts(heavy, missing), lig)
+        out = "True" if r else "False:" + (seen[-1] if seen else "silent")
+    except ValueError:
+        out = "ValueError"
+    finally:
+        lg.removeHandler(h)
+        lg.setLevel(old_level)
+        logging.disable(old_disable)
+    return out
+
+
+def gate_tie(ctx: Ctx, n):
+    """main.is_repairable against the model's repairGate on counts around the repair limit (theorem repair_gate_spec)"""
+    rng = ctx.rng
+    cases = [(0, 0, False), (0, 0, True), (0, 3, False), (10, 0, False), (10, 1, False), (10, 2, False), (100, 10, False), (100, 11, False), (108, 11, False), (1000, 100, True), (1000, 101, False), (1000, 104, False), (1000, 105, False)]
+    for _ in range(n):
+        heavy = rng.choice([rng.randint(1, 30), rng.randint(30, 400), rng.randint(400, 20000)])
+        m0 = heavy // 10
+        missing = max(0, rng.choice([0, 1, m0 - 1, m0, m0 + 1, m0 + 2, int(heavy * 0.104), int(heavy * 0.105) + 1, rng.randint(0, heavy)]))
+        cases.append((heavy, missing, rng.random() < 0.2))
+    ans = ctx.driver.ask([f"repair.gate\t{h}\t{m}\t{int(l)}" for h, m, l in cases])
+    for (h, m, l), a in zip(cases, ans):
+        ctx.evaluations += 1
+        real = real_gate(h, m, l)
+        band = "no-heavy" if h == 0 else "clean" if m == 0 else "<=0.1" if 10 * m <= h else "(0.1,0.105]" if 1000 * m <= 105 * h else ">0.105"
+        ctx.count("repair-gate-band", band)
+        ctx.distinct.add(("gate", band, l))
+        if a != real:
+            ctx.disagree("main.is_repairable (decision on the two counts)", {"num_heavy": h, "num_missing_heavy": m, "has_ligand": l}, a, real)
+
+
+def repair_limit_stream(ctx: Ctx, n):
+    """peptides (12-16 residues) with outer side-chain atoms removed so that the missing fraction straddles the repair
+    limit: the decision the run takes (is_repairable's return value, observed in the real run) must be the one the
+    limit prescribes for the counts of that structure (10 * missing <= heavy), and a refused structure never gets
+    its atoms rebuilt"""
+    from pdb2pqr import biomolecule as bm
+    from pdb2pqr import main as pmain
+
+    rng = ctx.rng
+    seen = set()
+    for ci in range(n):
+        # (from about 200 heavy atoms on, every structure has a missing count in the band (0.1, 0.105])
+        _f, res = G.window(rng, rng.choice([10, 12, 14, 16]) if ci % 5 in (0, 4) else rng.choice([26, 28, 30, 34]))
+        G.set_chain(res, "A", 1)
+        # the counts the gate will see for the complete window (probe), then the number of atoms to remove for a
+        # missing fraction just inside the limit / just over it / a little further
+        probe = {}
+        orig_gate0 = pmain.is_repairable
+
+        def gate0(biomolecule, has_ligand):
+            probe["counts"] = (biomolecule.num_heavy, biomolecule.num_missing_heavy)
+            return orig_gate0(biomolecule, has_ligand)
+
+        pmain.is_repairable = gate0
+        try:
+            G.run_pipeline(G.to_pdb([res]), ["--ff=AMBER", "--nodebump", "--noopt"])
+        finally:
+            pmain.is_repairable = orig_gate0
+        if "counts" not in probe:
+            continue
+        heavy0, miss0 = probe["counts"]
+        k = max(1, heavy0 // 10 - miss0 + [0, 1, 1, 2, -1][ci % 5])
+        # remove k outer side-chain atoms, at most two per residue, never CB or backbone
+        order = list(range(len(res)))
+        rng.shuffle(order)
+        left = k
+        for rounds in range(2):
+            for i in order:
+                if left == 0:
+                    break
+                side = [a for a in res[i] if a.name not in ("N", "CA", "C", "O", "OXT", "CB")]
+                if side and res[i][0].resn != "PRO":
+                    res[i] = [a for a in res[i] if a is not side[-1]]
+                    left -= 1
+        text = G.to_pdb([res])
+        seen_gate = {}
+        orig_gate, orig_rep = pmain.is_repairable, bm.Biomolecule.repair_heavy
+
+        def gate(biomolecule, has_ligand):
+            seen_gate["counts"] = (biomolecule.num_heavy, biomolecule.num_missing_heavy)
+            r = orig_gate(biomolecule, has_ligand)
+            seen_gate["ret"] = bool(r)
+            return r
+
+        def rep(self_):
+            seen_gate["repaired"] = True
+            return orig_rep(self_)
+
+        pmain.is_repairable, bm.Biomolecule.repair_heavy = gate, rep
+        try:
+            r = G.run_pipeline(text, [f"--ff={rng.choice(c01.FFS)}"] + rng.choice([[], ["--nodebump"], ["--noopt"]]))
+        finally:
+            pmain.is_repairable, bm.Biomolecule.repair_heavy = orig_gate, orig_rep
+        ctx.evaluations += 1
+        if "counts" not in seen_gate:
+            ctx.count("repair-limit-stream", "gate not reached:" + r.status)
+            continue
+        heavy, missing = seen_gate["counts"]
+        band = "clean" if missing == 0 else "<=0.1" if 10 * missing <= heavy else "(0.1,0.105]" if 1000 * missing <= 105 * heavy else ">0.105"
+        ctx.count("repair-limit-stream", f"{band}:{r.status}")
+        ctx.distinct.add(("repair-limit", band, r.status))
+        want = missing > 0 and 10 * missing <= heavy
+        if seen_gate.get("ret") != want or (seen_gate.get("repaired", False) and not want):
+            sig = {"side": "failure", "trigger": "repair-limit", "problem": "treated-as-repairable" if not want else "refused-within-limit"}
+            if tuple(sig.items()) not in seen:
+                seen.add(tuple(sig.items()))
+                ctx.violate(sig, f"{missing} of {heavy} heavy atoms missing ({missing / heavy:.4f}, limit 0.1): is_repairable returned {seen_gate.get('ret')}, repair_heavy {'ran' if seen_gate.get('repaired') else 'did not run'}; run {r.status}, output {'written' if r.pqr else 'not written'}", {"pdb": text, "options": [], "trigger": "repair-limit"})
+
+
 def non_integral_totals(ctx: Ctx, n):
     """inputs whose charges cannot add up to an integer (hydrogen-free peptides under --assign-only,
     CA traces): whatever the fractional part, either the run fails and leaves the output path alone,
@@ -481,6 +615,8 @@ def run(ctx: Ctx):
     fault_injection(ctx, ctx.scale(1, 6))
     natural_failures(ctx)
     guard_tie(ctx, ctx.scale(400, 20000))
+    gate_tie(ctx, ctx.scale(300, 10000))
+    repair_limit_stream(ctx, ctx.scale(10, 200))
     non_integral_totals(ctx, ctx.scale(12, 400))
     success_side(ctx, ctx.scale(20, 600))
     neutral_termini_side(ctx, ctx.scale(40, 400))
